@@ -221,6 +221,8 @@ def walk(prog, f, scope=()):
             walk(st["else"], f, scope)
         elif k == "macrodef":
             walk(st["body"], f, scope + ("$macrodef",))
+        elif k == "test":
+            walk(st["body"], f, scope + ("$test",))
 
 
 def number_statements(prog):
@@ -256,14 +258,21 @@ def anon_scopes_postorder(prog, acc=None):
     return acc
 
 
-def assign_anon_scopes(prog, observed_symbol_paths):
+def assign_anon_scopes(prog, observed_symbol_paths, parser_ids=None):
     """Name the AST's anonymous scopes after the implementation's '$scope_<n>' identifiers.
+    With parser_ids (the harness reports the parser's scope names of the entry file in the same post-order) the naming is exact.
     The parser hands out increasing numbers in post-order (numbers may be skipped when it backtracks),
     so the k-th anonymous scope of the AST in post-order is the k-th smallest observed number.
     Scopes that never got a symbol (no segment active) do not show up; then counts differ and we return False."""
     import re
-    nums = sorted({int(m.group(1)) for p in observed_symbol_paths for m in re.finditer(r"\$scope_(\d+)", p)})
     sts = anon_scopes_postorder(prog)
+    if parser_ids is not None:
+        if len(parser_ids) != len(sts):
+            return False
+        for st, n in zip(sts, parser_ids):
+            st["sid"] = n
+        return True
+    nums = sorted({int(m.group(1)) for p in observed_symbol_paths for m in re.finditer(r"\$scope_(\d+)", p)})
     if len(nums) != len(sts):
         return False
     for st, n in zip(sts, nums):
@@ -341,6 +350,8 @@ class Gen:
         self.holes = []      # (expr dict to patch, scope tuple, kind)
         self.budget = nstmts
         self.anon = 0
+        self.ntests = 0
+        self.extras = True   # .text with interpolated symbols, .test blocks, .assert/.trace (no bytes in a build)
 
     def define(self, scope, kind):
         d = self.defs.setdefault(scope, {})
@@ -396,6 +407,19 @@ class Gen:
                 e["mod"] = r.choice("<>")
                 return data(1, [e, num(r.randrange(256))])
             return data(w, [self.operand(scope)])
+        if self.extras and x < 0.815:
+            part = {"ref": "?", "path": ["?"]}
+            self.holes.append((part, scope, "text"))
+            st = {"k": "text", "enc": r.choice(["", "", "ascii", "petscii"]), "e": {"k": "istr", "parts": [{"lit": [ord(c) for c in r.choice(["", "a", "v=", "0"])]}, part] + ([{"lit": [ord("z")]}] if r.random() < 0.3 else [])}}
+            return st
+        if self.extras and x < 0.83:
+            z = r.random()
+            if z < 0.4 and depth == 0:
+                self.ntests += 1
+                return {"k": "test", "name": "t%d" % self.ntests, "body": [insn("lda", "imm", num(r.randrange(256))), {"k": "assert", "e": binop("==", ident(["cpu", "a"]), num(1)), "msg": None}, insn("brk")]}
+            if z < 0.7:
+                return {"k": "assert", "e": binop("==", self.operand(scope), num(r.randrange(4))), "msg": r.choice([None, "m"])}
+            return {"k": "trace", "es": [self.operand(scope)] if r.random() < 0.7 else []}
         if x < 0.84:
             return insn(r.choice(["nop", "inx", "rts", "asl"]))
         if x < 0.88:
@@ -443,6 +467,16 @@ class Gen:
     def fill(self):
         for e, scope, kind in self.holes:
             c = self.spellings(scope, kind)
+            if kind == "text":
+                c = [p for p in c if p[-1] not in ("-", "+")]
+                if not c:
+                    e.clear()
+                    e["lit"] = [48]
+                else:
+                    pth = self.r.choice(c)
+                    e["path"] = pth
+                    e["ref"] = ".".join(pth)
+                continue
             if not c:
                 e.update(k="num", n=self.r.choice([0x10, 0x1234]), radix="hex", lz=0)
                 e.pop("path", None)
@@ -483,6 +517,24 @@ class Gen:
 
 
 # ------------------------------------------------------------------ generator for C07 (constructs and their expansion)
+
+def text(parts, enc=""):
+    """parts: list of str (literal) or ("ref", name)"""
+    ps = [{"lit": [ord(c) for c in x]} if isinstance(x, str) else {"ref": x[1]} for x in parts]
+    return {"k": "text", "enc": enc, "e": {"k": "istr", "parts": ps}}
+
+
+def assert_(e, msg=None):
+    return {"k": "assert", "e": e, "msg": msg}
+
+
+def trace(es):
+    return {"k": "trace", "es": es}
+
+
+def test(name, body):
+    return {"k": "test", "name": name, "body": body}
+
 
 def import_(file, as_=None, params=None, sel=None):
     """sel: list of (name, as) for `.import name as other, ... from`; None/[] for `.import *`"""
@@ -528,7 +580,16 @@ def _render_one(st, indent, out):
         return
     st["line"] = len(out) + 1
     st["col"] = len(pad) + 1
-    if k == "label":
+    if k == "text":
+        body = "".join("".join(chr(c) for c in p["lit"]) if "lit" in p else "{" + p["ref"] + "}" for p in st["e"]["parts"])
+        out.append(pad + ".text " + (st["enc"] + " " if st["enc"] else "") + '"' + body + '"')
+    elif k == "assert":
+        out.append(pad + ".assert " + render_expr(st["e"]) + (' "%s"' % st["msg"] if st.get("msg") else ""))
+    elif k == "trace":
+        out.append(pad + ".trace" + (" (" + ", ".join(render_expr(e) for e in st["es"]) + ")" if st["es"] else ""))
+    elif k == "test":
+        out.append(pad + '.test "%s" {' % st["name"]); render(st["body"], indent + 1, out); out.append(pad + "}")
+    elif k == "label":
         out.append(pad + st["name"] + ": {"); render(st["body"], indent + 1, out); out.append(pad + "}")
     elif k == "braces":
         out.append(pad + "{"); render(st["body"], indent + 1, out); out.append(pad + "}")
@@ -556,6 +617,12 @@ def tla_ready(prog):
         if st["k"] == "import":
             out.append({"k": "import", "sid": st.get("sid") or "", "file": st["file"], "hasAs": st["hasAs"], "as": st["as"],
                         "hasParams": st["hasParams"], "params": tla_ready(st["params"]), "sel": st.get("sel", [])})
+        elif st["k"] == "text":
+            out.append({"k": "text", "sid": str(st.get("n", 0)), "enc": st["enc"], "e": st["e"]})
+        elif st["k"] in ("assert", "trace"):
+            out.append({"k": st["k"], "sid": str(st.get("n", 0))})
+        elif st["k"] == "test":
+            out.append({"k": "test", "sid": str(st.get("n", 0)), "name": st["name"]})
         else:
             c = _tla_ready_old([st])[0]
             for key in ("body", "then", "else"):
@@ -618,6 +685,8 @@ class Gen7:
         self.consts = []
         self.outer = ["dat", "tgt"]       # labels defined at top level (dat before the constructs, tgt after)
         self.imp_names = []
+        self.leaks = []        # labels inside branches that are never selected (their conditions are forward references)
+        self.late = False      # forward constants lateT = 1 / lateF = 0 are defined at the end of the program
 
     def fresh(self, p):
         self.n += 1
@@ -669,6 +738,28 @@ class Gen7:
     def construct(self, d, in_loop, params, allow_label):
         r = self.r
         x = r.random()
+        if d == 1 and not in_loop and not params and allow_label and r.random() < 0.2:
+            # a condition that is a forward reference (unknown in the first pass): the branch that is never selected defines
+            # a label, and the program later asks whether that label is defined -- it must not be
+            self.late = True
+            lk = self.fresh("leak")
+            self.leaks.append(lk)
+            # ... and a label named like the outer label `dat`, referenced after the .if inside the same brace scope:
+            # the reference must denote the outer `dat` (the hand expansion has only the selected branch)
+            which = r.choice(["constT", "constF", "labelT"])
+            # constants exist from the very first pass (labels only once a segment exists): a constant condition is unknown only
+            # then, and only constants can leak out of its dead branch; a label condition stays unknown one pass longer
+            dead = [label(lk), insn("nop")] + ([const("kk0", num(r.choice([80, 300])))] if which != "labelT" else [label("dat"), insn("nop")])
+            live = self.body(d, False, [], True)
+            if which == "constT":
+                st = if_(ident(["lateT"]), live, dead)
+            elif which == "constF":
+                st = if_(ident(["lateF"]), dead, live if r.random() < 0.7 else None)
+            else:
+                st = if_(binop(">", ident(["tgt"]), num(0)), live, dead)
+            if which != "labelT":
+                return braces([st, insn("ldx", "imm", ident(["kk0"])), data(2, [ident(["kk0"])])])
+            return braces([st, insn("lda", "dir", ident(["dat"])), data(2, [ident(["dat"])])])
         if x < 0.3:
             return loop(num(r.choice([0, 1, 2, 3])), self.body(d, True, params, False))
         if x < 0.55:
@@ -691,6 +782,7 @@ class Gen7:
     def program(self):
         r = self.r
         prog, files = [], {}
+        prog.append(const("kk0", num(40)))       # shadowed inside dead branches (see construct)
         for _ in range(r.randrange(0, 3)):
             c = self.fresh("k")
             prog.append(const(c, num(r.choice([1, 2, 3, 200]))))
@@ -728,6 +820,10 @@ class Gen7:
             prog.append(self.construct(1, False, [], True))
         prog.append(label("tgt"))
         prog.append(insn("rts"))
+        for lk in self.leaks:
+            prog.append(data(1, [{"k": "def", "name": lk, "path": [lk]}]))
         prog += late_macros
+        if self.late:
+            prog += [const("lateT", num(1)), const("lateF", num(0))]
         separate_label_from_braces(prog)
         return prog, files
